@@ -293,9 +293,11 @@ def main(argv=None):
 
     batch_n = max(1, int(plan.get("batch", 1)))
 
+    directed_left = [len(directed)]
     def items():
         for k, c in enumerate(directed):
             cases[-(k + 1)] = c
+            directed_left[0] -= 1
             yield (-(k + 1), exec_batch, (mod.__name__, [(-(k + 1), c)]))
         for i0 in range(0, ncases, batch_n):
             b = []
@@ -310,7 +312,9 @@ def main(argv=None):
     harness_errors = []
     known = load_known(pid)
     new_count = [0]
-    stop = lambda: (time.monotonic() - t0) > wall_budget or new_count[0] >= 5 or len(harness_errors) >= 12
+    # directed cases and regressions always run; the wall budget bounds the generated ones
+    stop = lambda: ((time.monotonic() - t0) > wall_budget and directed_left[0] <= 0) or new_count[0] >= 5 \
+        or len(harness_errors) >= 12
     nproc = plan.get("nproc")
     for idx0, r in parallel_map(items(), nproc=nproc, timeout=timeout * (1 + batch_n / 4.0), stop=stop):
         if r.status != "ok":
